@@ -256,6 +256,13 @@ Ret(kind, hasOut, out, hasErr, err, textOk) ==
   /\ UNCHANGED <<piped, cap, k, short, input, flood, buf, pOpen, cOpen, cPend, cAlive, now, limit, dl, sawEof,
                  written, inAcc, cRecv, cEof, pwDone, after, noProg, sanity>>
 
+\* Memory was refused (fault injection) and the process aborted, as a Rust program does when an allocation fails:
+\* the exchange is over, nothing was returned, nothing is claimed.
+RetOom ==
+  /\ inCall /\ inCall' = FALSE
+  /\ UNCHANGED <<piped, cap, k, short, input, flood, buf, pOpen, cOpen, cPend, cAlive, now, limit, dl, sawEof,
+                 written, delivered, inAcc, cRecv, cEof, pwDone, after, noProg, viol, sanity>>
+
 \* ---------------------------------------------------------------- the library's interface: system calls
 \* monitor bookkeeping shared by the system-call actions
 AfterBump(x) == IF inCall /\ Expired THEN [after EXCEPT ![x] = @ + 1] ELSE after
